@@ -80,6 +80,8 @@ def run(F, chk):
     check_short_forms(ser[0], fj, F5)
     F6 = chk.rule('F6', 'text front-ends: a [u8; N] scratch buffer is re-initialised on every path between two consumptions (no bytes of the previous id leak)')
     check_scratch_buffers(F, F6)
+    F7 = chk.rule('F7', 'text front-ends: criterion text taken from the input reaches the filter verbatim (no trim / case folding / replace on the way)')
+    check_verbatim_text(F, F7)
 
 
 HELPERS_OF_MATCHES = []
@@ -444,3 +446,64 @@ def check_scratch_buffers(F, F6):
     if n == 0 and nid >= 2:
         F6.ok(sample={'scratch_buffers': 'none shared: every id is built from a fresh value', 'from_buf_calls': nid})
     F6.floor('ids built from byte buffers (Char4OrRegex::from_buf) in the filter front-ends', nid, 2)
+
+
+# ---------------------------------------------------------------------------------------------
+# F7: the front-ends keep criterion text verbatim
+
+NORMALISE = re.compile(r'(str::<impl str>::(trim|trim_start|trim_end|trim_matches|trim_start_matches|trim_end_matches|trim_left|trim_right|to_lowercase|to_uppercase|'
+                       r'to_ascii_lowercase|to_ascii_uppercase|replace|replacen|strip_prefix|strip_suffix|split_whitespace)|'
+                       r'char::methods::<impl char>::to_(ascii_)?(lower|upper)case|slice::<impl \[u8\]>::(trim_ascii\w*|to_ascii_\w+)|AsciiExt::\w+)$')
+
+
+def check_verbatim_text(F, F7):
+    """"a filter ... decides identically whether loaded via JSON, DLF or the convert options": payload text, ids and regex
+    sources are whitespace- and case-significant, so every front-end has to hand the text it read to the filter unchanged.
+    Sinks in the front-end functions (those of adlt::filter returning Filter / Vec<Filter>, and their closures): the value
+    stored into the attribute map, every store into a field of Filter, and the text arguments of the criterion constructors
+    (Char4OrRegex::from_str, Regex::new).  The backward data provenance of a sink value must not contain a normalising
+    str/char method."""
+    from prov import Prov, calls_in
+    fronts = [b for b in F.order if b.crate == 'lib' and b.path.startswith('adlt::filter::') and '::tests' not in b.path and b.kind != 'closure' and
+              re.search(r'filter_impl::Filter\b', b.ret_type()) and b.arg_count >= 1]
+    F7.floor('front-end functions (adlt::filter::* returning Filter / Vec<Filter> from an input)', len(fronts), 4)
+    n = 0
+    for f in fronts:
+        for b in [f] + list(F.closures_of(f.path)):
+            F7.fn(b.path)
+            cfg = pr = None
+            for blk in b.blocks:
+                if blk.cleanup:
+                    continue
+                sinks = []
+                t = blk.term
+                if t.k == 'call':
+                    p = t.callee.path
+                    if re.search(r'HashMap::<K, V, S(, A)?>::insert$', p) and len(t.args) > 2 and 'String' in (t.args[2].ty or ''):
+                        sinks.append(('attribute map value', t.args[2], t.sp))
+                    elif re.search(r'(Char4OrRegex as std::str::FromStr>::from_str|Char4OrRegex::from_str|Regex::new|DltChar4::from_str)$', p) or \
+                            (p.endswith('FromStr::from_str') and 'Char4' in (t.dest.t or '')):
+                        if t.args:
+                            sinks.append(('criterion constructor argument', t.args[0], t.sp))
+                for s in blk.stmts:
+                    if s.k == 'assign' and any(e['k'] == 'f' and e.get('o') == FILTER for e in s.place.p) and s.rv['k'] in ('use', 'agg', 'cast'):
+                        ops = [Operand(s.rv['o'])] if s.rv['k'] in ('use', 'cast') else [Operand(o) for o in s.rv['ops']]
+                        for o in ops:
+                            if o.place is not None and re.search(r'(String|str|Regex|Char4)', o.ty or ''):
+                                sinks.append(('store into Filter.%s' % [e['n'] for e in s.place.p if e['k'] == 'f'][-1], o, s.sp))
+                if not sinks:
+                    continue
+                if cfg is None:
+                    cfg = CFG(b)
+                    pr = Prov(cfg)
+                for (what, o, sp) in sinks:
+                    n += 1
+                    F7.sites += 1
+                    toks = pr.operand(o, at=blk.i)
+                    bad = sorted(set(c for c in calls_in(toks) if NORMALISE.search(c)))
+                    if bad:
+                        F7.violation(('text-normalised', f.path, bad[0].split('::')[-1]), '%s: the %s at %s derives from %s - criterion text (payload text, ids, regex sources) is whitespace/case significant, '
+                                     'the same filter loaded through another front-end matches different messages' % (f.path, what, b.loc(sp), ', '.join(x.split('::')[-1] + '()' for x in bad)), where=b.loc(sp))
+                    else:
+                        F7.ok(sample={'front_end': f.path, 'sink': what, 'at': b.loc(sp), 'normalising_calls_in_provenance': 0})
+    F7.floor('text sinks in the front-ends', n, 6)
